@@ -73,6 +73,8 @@ type Scn struct {
 	InspPermissive bool          `json:"insp_permissive,omitempty"` // inspection rules are ALLOW *
 	ExtraFinal map[string]string `json:"extra_final,omitempty"` // further files lying in the verification directory that no step reported
 	CertUnsorted bool            `json:"cert_unsorted,omitempty"` // c10: the certificate constraint lists several values in non-sorted order
+	LineNorm   bool              `json:"line_norm,omitempty"`   // verification (and the recording functionaries) normalise line endings
+	BigFile    int               `json:"big_file,omitempty"`    // size of an additional source file src/big.bin (generated, not stored)
 	Env        map[string]string `json:"env,omitempty"`        // environment the scenario ran under (time zone), for the replay
 	ExpectSummary string         `json:"expect_summary,omitempty"` // filled by materialise: the summary link an accepted verification must return
 	Seed       uint64            `json:"seed"`
@@ -84,9 +86,26 @@ func pk(name string) lib.KeyPair { return lib.GetKeyPair(name) }
 
 func sha(s string) string { h := sha256.Sum256([]byte(s)); return hex.EncodeToString(h[:]) }
 
+var curNorm bool // the functionaries record with line normalisation (set by materialise from Scn.LineNorm)
+
+func normalise(content string) string {
+	return strings.ReplaceAll(strings.ReplaceAll(content, "\r\n", "\n"), "\r", "\n")
+}
+
+func bigContent(n int) string {
+	b := make([]byte, n)
+	for i := range b {
+		b[i] = byte('a' + (i*7+i/4096)%23)
+	}
+	return string(b)
+}
+
 var curAlg = "sha256" // digest algorithm of the links being written (set by materialise from Scn.HashAlg)
 
 func hobj(content string) intoto.HashObj {
+	if curNorm {
+		content = normalise(content)
+	}
 	if curAlg == "sha512" || curAlg == "both" {
 		h := sha512.Sum512([]byte(content))
 		if curAlg == "both" {
@@ -126,7 +145,7 @@ func applyOp(files map[string]string, i int, op string, lvl int) map[string]stri
 }
 
 func initialFiles() map[string]string {
-	return map[string]string{"src/a.c": "int a;\n", "src/b.c": "int b;\r\n", "README": "", "stamp.txt": "AAAA"}
+	return map[string]string{"src/a.c": "int a;\n", "src/b.c": "int b;\r\n", "README": "", "stamp.txt": "AAAA", "src/notes.txt": "line one\nline two\n"}
 }
 
 // ---------- building the layout ----------
@@ -535,19 +554,20 @@ var defects = map[string][]string{
 		"verifier-plus-one", "verifier-minus-one", "verifier-empty", "signed-by-others", "link-instead-of-layout",
 		"dup-signature-missing-key", "keyid-collision-history",
 		"case-variant-member-evil-first-dsse", "case-variant-member-evil-last-dsse", "case-variant-member-evil-first-legacy", "case-variant-member-evil-last-legacy",
-		"verifier-key-malformed-legacy", "verifier-key-malformed-dsse", "alter-payload-strip-sig-padding"},
+		"verifier-key-malformed-legacy", "verifier-key-malformed-dsse", "alter-payload-strip-sig-padding", "verifier-key-cert-only-forged"},
 	"c05": {"none", "disagree-product-digest", "disagree-product-path", "disagree-material-digest", "disagree-algorithm", "disagree-algorithm-material",
 		"junk-uncounted-badsig", "junk-uncounted-unauthorised", "extra-agreeing-link", "byproducts-differ",
 		"threshold1-disagree-product-digest", "threshold1-disagree-algorithm", "threshold1-agree",
 		"permissive-disagree-algorithm", "permissive-disagree-algorithm-material", "permissive-disagree-product-digest", "permissive-none",
 		"insp-named-like-last-step", "insp-named-like-first-step", "permissive-unclean-paths",
 		"permissive-sub-beside-link-disagree", "permissive-sub-beside-link-agree", "permissive-twin-sublayouts-disagree", "permissive-twin-sublayouts-agree",
-		"threshold1-disagree-large-link", "permissive-threshold1-foreign-signature-entry-0", "permissive-threshold1-foreign-signature-entry-1"},
+		"threshold1-disagree-large-link", "permissive-threshold1-foreign-signature-entry-0", "permissive-threshold1-foreign-signature-entry-1",
+		"permissive-three-links-one-disagrees-0", "permissive-three-links-one-disagrees-1", "permissive-three-links-one-disagrees-2"},
 	"c06": {"sub-expired", "sub-undated", "sub-rfc3339-offset", "none", "expired-long", "expired-2s", "future-1h", "garbage", "empty", "rfc3339-offset", "date-only", "year-9999", "fraction", "lowercase"},
-	"c08": {"sub-insp-named-like-first-step", "sub-insp-named-like-last-step", "sub-defective-beside-good-link", "sub-ok", "sub-ok", "sub-badsig", "sub-expired", "sub-missing-link", "sub-rule-violation", "sub-unauthorised", "sub-nested", "sub-nested-defect", "sub-summary-mismatch"},
+	"c08": {"sub-wide-9", "sub-defective-beside-good-link-large", "sub-insp-named-like-first-step", "sub-insp-named-like-last-step", "sub-defective-beside-good-link", "sub-ok", "sub-ok", "sub-badsig", "sub-expired", "sub-missing-link", "sub-rule-violation", "sub-unauthorised", "sub-nested", "sub-nested-defect", "sub-summary-mismatch"},
 	"c10": {"history-same-params", "history-diff-params", "history-no-params", "history-mixed", "mixed-cert-key", "mixed-cert-key", "mixed-cert-key-unsorted", "summary-byproducts", "direct-unclean",
-		"history-multi-alg", "history-multi-alg-mismatch", "history-whitespace-rule", "history-param-value-has-marker", "mixed-cert-key-marker-constraint"},
-	"c09": {"product-added-ignorable-name-0", "product-added-ignorable-name-1", "product-added-ignorable-name-2", "product-added-ignorable-name-3",
+		"history-multi-alg", "history-multi-alg-mismatch", "history-whitespace-rule", "history-param-value-has-marker", "mixed-cert-key-marker-constraint", "history-threshold-zero"},
+	"c09": {"product-crlf-rewritten", "product-crlf-rewritten-normalised", "large-product-tampered-tail", "product-added-ignorable-name-0", "product-added-ignorable-name-1", "product-added-ignorable-name-2", "product-added-ignorable-name-3",
 		"product-added-ignorable-name-4", "product-added-ignorable-name-5", "product-added-ignorable-name-6", "product-added-ignorable-name-7",
 		"product-added-ignorable-name-8", "product-added-ignorable-name-9", "product-added-ignorable-name-10", "case-variant-rule-earlier", "product-modified-backslash-decoy", "sha512-chain-product-modified", "escaped-pattern-product-modified", "escaped-pattern-none", "insp-rewrite-same-mtime", "product-all-removed", "require-after-consume", "none", "insp-fail", "insp-fail-255", "insp-missing", "insp-empty", "product-modified", "product-added", "product-removed",
 		"insp-touch-allowed", "insp-touch-disallowed", "three-inspections", "second-fails"},
@@ -620,6 +640,12 @@ func genScenario(r *lib.Rng, focus string, idx int) *Scn {
 			sc.Owners = []string{"ed1"}
 			sc.Verifiers = nil
 			sc.Expect = "reject"
+		case "verifier-key-cert-only-forged":
+			// the verifier's key object carries only a certificate (no public half); the layout is signed by ANOTHER
+			// certificate's key, the signature entry is labelled with the trusted key id and carries that other certificate
+			sc.Wrapper = "legacy"
+			sc.Verifiers = nil
+			sc.Expect = "reject"
 		case "alter-payload-strip-sig-padding":
 			// DSSE: the payload is altered and the signature's base64 padding is stripped (no longer decodable)
 			sc.Wrapper = "dsse"
@@ -657,6 +683,21 @@ func genScenario(r *lib.Rng, focus string, idx int) *Scn {
 		i := r.Intn(len(sc.Steps))
 		needTwo(i)
 		sc.DefectArg = strconv.Itoa(i) + ":" + strconv.Itoa(r.Intn(2)) // step index : which of the two links is altered
+		if strings.Contains(d, "three-links-one-disagrees-") {
+			st := &sc.Steps[i]
+			for len(st.Keys) < 3 {
+				for _, p := range pool {
+					if !contains(st.Keys, p) {
+						st.Keys = append(st.Keys, p)
+						break
+					}
+				}
+			}
+			sort.Strings(st.Keys)
+			st.Threshold = 3
+			st.Signers = append([]string{}, st.Keys[:3]...)
+			sc.DefectArg = strconv.Itoa(i) + ":" + d[len(d)-1:]
+		}
 		if strings.Contains(d, "threshold1-foreign-signature-entry-") {
 			sc.DefectArg = strconv.Itoa(i) + ":" + d[len(d)-1:]
 		}
@@ -787,6 +828,38 @@ func genScenario(r *lib.Rng, focus string, idx int) *Scn {
 		sc.ExpectLog = append([]string{"subinsp"}, sc.ExpectLog...)
 		switch d {
 		case "sub-ok":
+		case "sub-wide-9":
+			// nine steps, each delegated to a sublayout of its own (wide, not deep)
+			sc.Steps = nil
+			sc.Insps, sc.ExpectLog, sc.Params = nil, nil, nil
+			for k := 0; k < 9; k++ {
+				key := pool[k%len(pool)]
+				sub := baseScenario(r, focus, 1)
+				sub.Insps, sub.Params, sub.Entry = nil, nil, "plain"
+				sub.Owners = []string{key}
+				for j := range sub.Steps {
+					sub.Steps[j].Name = fmt.Sprintf("w%d_%d", k, j)
+				}
+				sc.Steps = append(sc.Steps, StepSpec{Name: fmt.Sprintf("wide%d", k), Keys: []string{key}, Threshold: 1, Signers: []string{key}, Op: "create", Sub: sub, SubSigner: key})
+			}
+		case "sub-defective-beside-good-link-large":
+			// like sub-defective-beside-good-link, and the expired sublayout is a big file (17 MiB of white space inside the JSON document)
+			for len(st.Keys) < 2 {
+				for _, p := range pool {
+					if !contains(st.Keys, p) {
+						st.Keys = append(st.Keys, p)
+						break
+					}
+				}
+			}
+			sort.Strings(st.Keys)
+			st.Signers = append([]string{}, st.Keys[:2]...)
+			st.Threshold = 1
+			st.SubSigner = st.Signers[1]
+			sub.Owners = []string{st.SubSigner}
+			sub.Expires = "2001-01-01T00:00:00Z"
+			sc.Expect = "reject"
+			sc.ForbidLog = []string{"subinsp"}
 		case "sub-insp-named-like-first-step", "sub-insp-named-like-last-step":
 			// the sublayout has an inspection named like one of its own steps: the parent must still see the
 			// first-step materials / last-step products of the sublayout's counted links
@@ -855,7 +928,7 @@ func genScenario(r *lib.Rng, focus string, idx int) *Scn {
 		default:
 			sc.Expect = "reject"
 		}
-		if sc.Expect == "reject" && d != "sub-defective-beside-good-link" {
+		if sc.Expect == "reject" && d != "sub-defective-beside-good-link" && d != "sub-defective-beside-good-link-large" {
 			// the sublayout is the only evidence for that step unless threshold is met otherwise: force it to be needed
 			st.Threshold = len(st.Signers)
 		}
@@ -893,6 +966,11 @@ func genScenario(r *lib.Rng, focus string, idx int) *Scn {
 			sc.CertStep = i + 1
 			sc.Reps = 24
 			sc.History = []map[string]string{sc.Params, sc.Params}
+		case "history-threshold-zero":
+			// a step without threshold (0): treated as 1 by the verification - which must not write that back into the caller's layout
+			sc.Params = nil
+			sc.Steps[0].Threshold = 0
+			sc.History = []map[string]string{nil, nil, nil}
 		case "history-param-value-has-marker":
 			// the value of one parameter contains the marker of another one: values are not rescanned, so the rules name
 			// files that do not exist and the chain is rejected - every time, whatever the order of the dictionary
@@ -977,6 +1055,19 @@ func genScenario(r *lib.Rng, focus string, idx int) *Scn {
 			sc.Expect = "reject"
 		case "escaped-pattern-none":
 			sc.Insps = []InspSpec{{Name: "insp0", Kind: "log"}}
+		case "product-crlf-rewritten":
+			// a text product was rewritten with other line endings after the last step; verification without line
+			// normalisation (both wrappers) must see the difference
+			sc.Insps = []InspSpec{{Name: "insp0", Kind: "log"}}
+			sc.Expect = "reject"
+		case "product-crlf-rewritten-normalised":
+			sc.LineNorm = true
+			sc.Insps = []InspSpec{{Name: "insp0", Kind: "log"}}
+		case "large-product-tampered-tail":
+			// a 9 MiB product whose last byte was changed after the last step
+			sc.BigFile = 9*1024*1024 + 12345
+			sc.Insps = []InspSpec{{Name: "insp0", Kind: "log"}}
+			sc.Expect = "reject"
 		case "case-variant-rule-earlier":
 			// an earlier rule of the same type whose pattern differs only in letter case (patterns are case-sensitive)
 			sc.Insps = []InspSpec{{Name: "insp0", Kind: "log"}}
@@ -1073,7 +1164,12 @@ func materialise(sc *Scn, root string, r *lib.Rng) *world {
 	if sc.HashAlg != "" {
 		curAlg = sc.HashAlg
 	}
-	b := writeChain(sc, w.linkDir, initialFiles(), r)
+	curNorm = sc.LineNorm
+	start := initialFiles()
+	if sc.BigFile > 0 {
+		start["src/big.bin"] = bigContent(sc.BigFile)
+	}
+	b := writeChain(sc, w.linkDir, start, r)
 	w.final = b.last
 	w.expMat, w.expProd = arts(b.first), arts(b.last)
 	// step-level defects on link files
@@ -1095,6 +1191,9 @@ func materialise(sc *Scn, root string, r *lib.Rng) *world {
 	for _, v := range sc.Verifiers {
 		k := pk(v).Pub
 		w.verifierKeys[k.KeyID] = k
+	}
+	if overrideVerifierKeys != nil {
+		w.verifierKeys, overrideVerifierKeys = overrideVerifierKeys, nil
 	}
 	if strings.HasPrefix(sc.Defect, "verifier-key-malformed-") {
 		pub := pk("ed1").Pub
@@ -1119,6 +1218,12 @@ func materialise(sc *Scn, root string, r *lib.Rng) *world {
 		final = map[string]string{}
 	case "sha512-chain-product-modified", "escaped-pattern-product-modified", "case-variant-rule-earlier":
 		final["stamp.txt"] = "EVIL"
+	case "product-crlf-rewritten", "product-crlf-rewritten-normalised":
+		final["src/notes.txt"] = "line one\r\nline two\r\n"
+	case "large-product-tampered-tail":
+		c := []byte(final["src/big.bin"])
+		c[len(c)-1] ^= 1
+		final["src/big.bin"] = string(c)
 	case "product-modified-backslash-decoy":
 		final["src\\a.c"] = final["src/a.c"]
 		final["src/a.c"] = final["src/a.c"] + "// tampered"
@@ -1126,7 +1231,7 @@ func materialise(sc *Scn, root string, r *lib.Rng) *world {
 	for p, c := range sc.ExtraFinal {
 		final[p] = c
 	}
-	curAlg = "sha256"
+	curAlg, curNorm = "sha256", false
 	sc.ExpectSummary = lib.ShowLinkCore(intoto.Link{Name: "summary-name", Materials: w.expMat, Products: w.expProd})
 	for p, c := range final {
 		fp := filepath.Join(w.prodDir, p)
@@ -1254,6 +1359,8 @@ func applyLinkDefects(sc *Scn, w *world, r *lib.Rng) {
 		for k, v := range extraP {
 			w.expProd[k] = v
 		}
+	case "three-links-one-disagrees-0", "three-links-one-disagrees-1", "three-links-one-disagrees-2":
+		resign(func(l *intoto.Link) { l.Products[anyKey(l.Products)] = hobj("something else") })
 	case "disagree-large-link":
 		// the disagreeing link is a big file (1.3 MB of insignificant white space inside the JSON document): size must not
 		// decide whether a validly signed, authorised link is compared
@@ -1330,6 +1437,12 @@ func applySubDefectKind(sc *Scn, w *world, kind string, second bool) {
 		file := filepath.Join(w.linkDir, linkFile(st.Name, kp.Pub.KeyID))
 		subDir := filepath.Join(w.linkDir, fmt.Sprintf(intoto.SublayoutLinkDirFormat, st.Name, kp.Pub.KeyID))
 		switch kind {
+		case "sub-defective-beside-good-link-large":
+			raw, err := os.ReadFile(file)
+			must(err)
+			if i := strings.Index(string(raw), "{"); i >= 0 {
+				must(os.WriteFile(file, []byte(string(raw[:i+1])+strings.Repeat(" ", 17*1024*1024)+"\n"+string(raw[i+1:])), 0o644))
+			}
 		case "sub-forged-link-first-use":
 			outsider := pk(sc.DefectArg)
 			for _, sst := range st.Sub.Steps {
@@ -1551,6 +1664,23 @@ func applyLayoutDefects(sc *Scn, w *world, r *lib.Rng) {
 			s0 := sigs(wr)[0].(map[string]interface{})
 			wr["signatures"] = append(sigs(wr), map[string]interface{}{"keyid": malformedKeyID, "sig": s0["sig"]})
 		})
+	case "verifier-key-cert-only-forged":
+		alice := lib.NewCA("trusted-root", nil, lib.CertOpts{}).NewLeaf(lib.CertOpts{CN: "alice"})
+		mallory := lib.NewCA("other-root", nil, lib.CertOpts{}).NewLeaf(lib.CertOpts{CN: "mallory"})
+		trusted, err := lib.LoadKeyPEM(alice.CertPEM)
+		must(err)
+		lm, err := intoto.LoadMetadata(p)
+		must(err)
+		m := wrap(sc, lm.GetPayload())
+		mustSign(m, mallory.Key)
+		must(m.Dump(p))
+		editJSON(p, func(wr, pl map[string]interface{}) {
+			for _, sg := range sigs(wr) {
+				sg.(map[string]interface{})["keyid"] = trusted.KeyID
+			}
+		})
+		overrideVerifierKeys = map[string]intoto.Key{trusted.KeyID: {KeyID: trusted.KeyID, KeyIDHashAlgorithms: trusted.KeyIDHashAlgorithms,
+			KeyType: trusted.KeyType, Scheme: trusted.Scheme, KeyVal: intoto.KeyVal{Certificate: trusted.KeyVal.Certificate}}}
 	case "alter-payload-strip-sig-padding":
 		editJSON(p, func(wr, pl map[string]interface{}) {
 			pl["readme"] = "altered after signing"
@@ -1644,10 +1774,10 @@ func runImplOn(sc *Scn, w *world, lm intoto.Metadata) (o obs) {
 	var sum intoto.Metadata
 	if sc.Entry == "dir" {
 		os.Chdir(w.root) // cwd is NOT the run dir: inspection links are dumped into cwd
-		sum, err = intoto.InTotoVerifyWithDirectory(lm, w.verifierKeys, w.linkDir, w.prodDir, "summary-name", sc.Params, nil, false)
+		sum, err = intoto.InTotoVerifyWithDirectory(lm, w.verifierKeys, w.linkDir, w.prodDir, "summary-name", sc.Params, nil, sc.LineNorm)
 	} else {
 		os.Chdir(w.prodDir)
-		sum, err = intoto.InTotoVerify(lm, w.verifierKeys, w.linkDir, "summary-name", sc.Params, nil, false)
+		sum, err = intoto.InTotoVerify(lm, w.verifierKeys, w.linkDir, "summary-name", sc.Params, nil, sc.LineNorm)
 	}
 	o.Log = readLog()
 	if err != nil {
@@ -2011,7 +2141,11 @@ func coqModelAt(sc *Scn, w *world, params map[string]string, nowNs int64) string
 	// world: files of the run directory
 	var files []string
 	for _, p := range lib.SortedKeys(w.final) {
-		files = append(files, lib.CoqPair(lib.CoqStr(p), lib.CoqStr(sha(w.final[p]))))
+		c := w.final[p]
+		if sc.LineNorm {
+			c = normalise(c)
+		}
+		files = append(files, lib.CoqPair(lib.CoqStr(p), lib.CoqStr(sha(c))))
 	}
 	// command semantics table: inspection command -> effect
 	var cmds []string
@@ -2292,6 +2426,8 @@ func collisionFirstUse(sc *Scn, rr *lib.Rng, work, focus, wrapper, order string)
 }
 
 const malformedKeyID = "0badc0de0badc0de0badc0de0badc0de0badc0de0badc0de0badc0de0badc0de"
+
+var overrideVerifierKeys map[string]intoto.Key // set by a layout defect that needs a hand-made verifier key object
 
 var noPrime bool // keyid-collision-history: do not use the mislabelled key object inside materialise
 
